@@ -99,6 +99,7 @@ class Mont:
 
     def __init__(self, F, a):
         self.F, self.a = F, a
+        self.a24 = F.mul(F.add(a, (2, 0)), F.inv((4, 0)))
 
     def rhs(self, x):
         F = self.F
@@ -156,9 +157,8 @@ class Mont:
         s = F.sqr(F.add(X, Z))
         d = F.sqr(F.sub(X, Z))
         c = F.sub(s, d)                       # 4XZ
-        a24 = F.mul(F.add(self.a, (2, 0)), F.inv((4, 0)))
         X2 = F.mul(s, d)
-        Z2 = F.mul(c, F.add(d, F.mul(a24, c)))
+        Z2 = F.mul(c, F.add(d, F.mul(self.a24, c)))
         return (X2, Z2)
 
     def xdbl_iter(self, x, n):
